@@ -173,6 +173,12 @@ def _lit(node, consts, index):
         return a | b
     if isinstance(node, ast.UnaryOp) and isinstance(node.op, ast.USub):
         return -_lit(node.operand, consts, index)
+    if isinstance(node, ast.Call) and isinstance(node.func, ast.Attribute) and node.func.attr in ("union", "intersection", "difference") \
+            and len(node.args) == 1:
+        a, b = _lit(node.func.value, consts, index), _lit(node.args[0], consts, index)
+        if isinstance(a, (set, frozenset)):
+            return getattr(set(a), node.func.attr)(set(b))
+        raise ValueError
     if isinstance(node, ast.Call) and isinstance(node.func, ast.Name) and node.func.id in ("set", "frozenset", "tuple", "list") \
             and len(node.args) == 1:
         v = _lit(node.args[0], consts, index)
